@@ -27,6 +27,41 @@ def chol_or_none(A):
     return None
 
 
+def admm_glasso(S, lam, rho=1.0, n_iter=4000, tol=1e-11):
+  """independent solver of min tr(S M) - logdet M + lam ||M||_1,off (ADMM)"""
+  d = S.shape[0]
+  Z = np.eye(d); U = np.zeros((d, d))
+  off = ~np.eye(d, dtype=bool)
+  for _ in range(n_iter):
+    w, Q = np.linalg.eigh(rho * (Z - U) - S)
+    theta = (Q * ((w + np.sqrt(w ** 2 + 4 * rho)) / (2 * rho))).dot(Q.T)
+    A = theta + U
+    Zn = A.copy()
+    Zn[off] = np.sign(A[off]) * np.maximum(np.abs(A[off]) - lam / rho, 0)
+    U = A - Zn
+    done = np.abs(Zn - Z).max() < tol and np.abs(theta - Zn).max() < tol
+    Z = Zn
+    if done:
+      break
+  return (Z + Z.T) / 2
+
+
+def better_candidates(E, alpha):
+  out = []
+  try:
+    out.append(admm_glasso(E, alpha))
+  except Exception:
+    pass
+  try:
+    from sklearn.covariance import graphical_lasso
+    with warnings.catch_warnings():
+      warnings.simplefilter('ignore')
+      out.append(graphical_lasso(E, alpha=alpha, max_iter=2000, tol=1e-9)[1])
+  except Exception:
+    pass
+  return [(c + c.T) / 2 for c in out if np.isfinite(c).all()]
+
+
 def gen_case(rng, supervised):
   d = int(rng.integers(2, 5))
   X, y = gen.dataset(rng, d=d, n_classes=int(rng.integers(2, 4)), bits=5)
@@ -76,7 +111,7 @@ def gen_case(rng, supervised):
   E = P0 + balance * loss
   ev = {'ev': 'SdmlFit', 'supervised': bool(supervised), 'prior_kind': prior_kind, 'region': region, 'exc': '',
         'M0': dym(M0), 'P0': dym(P0), 'pts': dym(pts) if prior_kind == 'covariance' else [], 'v': dym(V), 'y': [int(v) for v in lab], 'balance': dy(balance), 'alpha': dy(alpha),
-        'L': [], 'cholM': [], 'cholE': [], 'has_cholE': False, 'W': [], 'cholW': [], 'has_W': False, 'logsM': [], 'logsW': []}
+        'L': [], 'Mstar': [], 'cholStar': [], 'logsStar': [], 'has_star': False, 'cholM': [], 'cholE': [], 'has_cholE': False, 'W': [], 'cholW': [], 'has_W': False, 'logsM': [], 'logsW': []}
   RE = chol_or_none(E)
   if RE is not None:
     ev['cholE'], ev['has_cholE'] = dym(RE), True
@@ -106,6 +141,18 @@ def gen_case(rng, supervised):
         if RW is not None and np.allclose(W, W.T, rtol=0, atol=0):
           ev['W'], ev['cholW'], ev['has_W'] = dym(W), dym(RW), True
           ev['logsW'] = dyv(np.log(np.diag(RW)))
+        # a candidate BETTER primal point (untrusted; TLC evaluates its objective): tight independent solves of the
+        # documented problem for the documented E
+        best = None
+        for cand in better_candidates(E, alpha):
+          Rc = chol_or_none(cand)
+          if Rc is None:
+            continue
+          val = float(np.sum(E * cand) - 2 * np.log(np.diag(Rc)).sum() + alpha * (np.abs(cand).sum() - np.abs(np.diag(cand)).sum()))
+          if best is None or val < best[0]:
+            best = (val, cand, Rc)
+        if best is not None:
+          ev['Mstar'], ev['cholStar'], ev['logsStar'], ev['has_star'] = dym(best[1]), dym(best[2]), dyv(np.log(np.diag(best[2]))), True
     except Exception as e:
       ev['exc'] = type(e).__name__
       ev['exc_msg'] = str(e)[:100]
